@@ -459,7 +459,7 @@ impl Check for C04 {
         "C04"
     }
     fn workloads(&mut self, tier: Tier, _seed: u64) -> Vec<(String, u64)> {
-        let k = if tier == Tier::Quick { 1 } else { 12 };
+        let k = if tier == Tier::Quick { 1 } else { 40 };
         let corpus_bytes: u64 = docs::corpus().iter().map(|f| f.bytes.len() as u64 + 1).sum();
         vec![
             ("corpus".into(), docs::corpus().len() as u64),
